@@ -88,13 +88,26 @@ def check_tree(prop, tier, seed, work, ops, props_in_model):
         if r["evaluated"] == 0:
             raise Infra("replay of slice %s evaluated nothing" % name)
         results.append(r)
+    ext = {}
+    if prop == "C10":
+        # extension beyond the listed properties: the query semantics of GetNode with wildcard keys
+        # (TreeLaws.tla Match / QueryLaws); disagreements are drift notes, not violations of C10
+        two = dict(vals=q(["v1", "v2"]), keys=q(["K1", "K2"]), mkeys="")
+        for name, consts in (("A", dict(two, enabled="EnabledA")), ("M", dict(two, enabled="EnabledM", mkeys=q(["K1.K1", "K1.K2", "K2.K1"])))):
+            t = vf.run_tlc(work, "MC_TreeLaws", LAWS_CFG % consts + "INVARIANT QueryLaws\nCONSTRAINT EmitTreeQ\n", tag="query" + name, timeout=1200)
+            states += t["distinct"]; trans += t["states"]
+            r = run_replay(bindir, h, "trees", ["-in", t["out"], "-modes", "query", "-seed", str(seed), "-prop", "C10", "-pkgs", ",".join(cfgs)] + (["-limit", "4"] if tier == "quick" else []), work, "query" + name)
+            results.append(r)
+            for k, v in (r.get("counters") or {}).items():
+                if k.startswith("queries"):
+                    ext[k] = ext.get(k, 0) + v
     tot = merge_results(results)
     for d in tot["drift"][:20]:
         log("SPEC-DRIFT:", d)
     cov = dict(states=states, transitions=trans, traces_validated_against_impl=tot["evaluated"],
                samples=tot["samples"][:4], exhaustive=(tier == "thorough"), skipped_unconcretisable=tot["skipped"],
                distinct_edges=tot["distinct"], counters=tot["counters"], configurations=cfgs,
-               spec_drift=tot["drift"][:20],
+               spec_drift=tot["drift"][:20], extension_getnode_wildcard_queries=ext,
                explanation="TLC explores every reachable state and transition of the TreeMachine slices A (keyed list, nested "
                            "container), B (leaf-list, presence container, ordered list) and M (two-key list) and checks the "
                            "declarative frame/removal properties on the operational model; every emitted transition is then "
